@@ -37,6 +37,7 @@ type upload struct {
 	chunks    []int
 	done      bool
 	cell      string
+	retried   bool
 }
 
 type env struct {
@@ -259,6 +260,34 @@ func (e *env) advance(u *upload) bool {
 		return false
 	}
 	rs := e.do(vh.Req{Method: "PUT", URL: u.loc + "&digest=" + u.decl, Body: u.content[u.off:]})
+	if rs.Status >= 400 && rs.Status < 500 && u.kind != "right" && !u.retried {
+		// a refused completion: whatever the registry does with the session afterwards (C08 says it is gone), bytes must
+		// never become retrievable under a digest they do not hash to.  Retry on the same session: more data, then a
+		// digest (under each algorithm) of the content as it was at the refused attempt.
+		u.retried = true
+		extra := []byte(fmt.Sprintf("+retry%d", len(e.trace)))
+		p := e.do(vh.Req{Method: "PATCH", URL: u.loc, Body: extra})
+		loc := u.loc
+		if p.Status == 202 && p.H.Get("Location") != "" {
+			loc = p.H.Get("Location")
+		}
+		for _, alg := range algs {
+			d := vh.DigestOf(alg, u.content)
+			e.probe[d] = true
+			e.probe[vh.DigestOf(alg, append(append([]byte{}, u.content...), extra...))] = true
+			f := e.do(vh.Req{Method: "PUT", URL: loc + "&digest=" + d})
+			e.r.Count("retries_after_refusal", 1)
+			if f.Status == 201 {
+				// acknowledged: then the session really held exactly u.content
+				if p.Status == 202 {
+					e.viol("retry-accepted-wrong-digest", fmt.Sprintf("after a refused completion the session accepted %d more bytes and was then completed (201) under %s, the digest of the content without them", len(extra), vh.Short(d)))
+					return true
+				}
+				e.have[u.repo][d] = u.content
+				break
+			}
+		}
+	}
 	return finish(rs.Status)
 }
 
@@ -332,6 +361,67 @@ func (e *env) manifests(rng *rand.Rand) {
 		} else if rs.Status < 400 || rs.Status >= 500 {
 			e.viol("wrong-digest-not-4xx", fmt.Sprintf("manifest push (%s) whose declared digest (%s) does not match the body answered %d", how, kind, rs.Status))
 			return
+		}
+	}
+}
+
+// negotiation: a tag that points to an index, read with Accept lists that need negotiation; whatever is served must
+// hash to the digest it is served under.
+func (e *env) negotiation(rng *rand.Rand) {
+	repo := e.repos[rng.Intn(len(e.repos))]
+	cfg := &vh.Blob{Name: "ncfg", B: []byte(fmt.Sprintf(`{"ncfg":%d}`, e.idx))}
+	cfg.D = vh.DigestOf("sha256", cfg.B)
+	if rs := e.do(vh.Req{Method: "POST", URL: "/v2/" + repo + "/blobs/uploads/?digest=" + cfg.D, Body: cfg.B}); rs.Status != 201 {
+		return
+	}
+	e.have[repo][cfg.D] = cfg.B
+	var children []*vh.Man
+	for n := 0; n < 2; n++ {
+		mt, cmt := vh.MTImage, vh.MTConfig
+		if n == 1 && rng.Intn(2) == 0 {
+			mt = vh.MTDockerImage
+		}
+		m := vh.MkImage(fmt.Sprintf("c%d", n), algs[rng.Intn(3)], mt, cfg, cmt, nil, "", "", map[string]string{"neg": fmt.Sprintf("%d.%d", e.idx, n)})
+		if rs := e.do(vh.Req{Method: "PUT", URL: "/v2/" + repo + "/manifests/" + m.D, H: map[string]string{"Content-Type": m.MT}, Body: m.Raw}); rs.Status != 201 {
+			e.viol("right-manifest-refused", fmt.Sprintf("child manifest push answered %d", rs.Status))
+			return
+		}
+		e.have[repo][m.D] = m.Raw
+		e.probe[m.D] = true
+		children = append(children, m)
+	}
+	idx := vh.MkIndex("nx", algs[rng.Intn(3)], vh.MTIndex, children, "", "", map[string]string{"neg": fmt.Sprint(e.idx)})
+	if rs := e.do(vh.Req{Method: "PUT", URL: vh.ManifestURL(repo, idx, "negot"), H: map[string]string{"Content-Type": idx.MT}, Body: idx.Raw}); rs.Status != 201 {
+		e.viol("right-manifest-refused", fmt.Sprintf("index push answered %d", rs.Status))
+		return
+	}
+	e.have[repo][idx.D] = idx.Raw
+	e.probe[idx.D] = true
+	for _, acc := range []string{vh.MTImage, vh.MTDockerImage, vh.MTImage + ", " + vh.MTDockerImage, vh.MTIndex, vh.AcceptAll, "application/json, " + vh.MTImage + ";q=0.5", vh.MTDockerList} {
+		for _, method := range []string{"GET", "HEAD"} {
+			rq := vh.Req{Method: method, URL: "/v2/" + repo + "/manifests/negot", H: map[string]string{"Accept": acc}}
+			rs := e.do(rq)
+			e.r.Count("negotiated_reads", 1)
+			e.r.Distinct("cells", "negotiation/"+method+"/"+fmt.Sprint(rs.Status))
+			if rs.Status >= 500 {
+				e.viol("read-5xx", fmt.Sprintf("%s %s (Accept %s) answered %d", method, rq.URL, acc, rs.Status))
+				return
+			}
+			if rs.Status != 200 {
+				continue
+			}
+			if p := vh.G1(rq, rs); p != "" {
+				e.viol("g1:negotiated", fmt.Sprintf("%s %s with Accept %q: %s", method, rq.URL, acc, p))
+				return
+			}
+			d := rs.H.Get("Docker-Content-Digest")
+			if want, ok := e.have[repo][d]; !ok {
+				e.viol("served-not-acknowledged", fmt.Sprintf("%s %s with Accept %q reports digest %s which was never pushed", method, rq.URL, acc, vh.Short(d)))
+				return
+			} else if method == "GET" && string(want) != string(rs.Body) {
+				e.viol("bytes-differ", fmt.Sprintf("GET %s with Accept %q serves bytes that differ from what was pushed under %s", rq.URL, acc, vh.Short(d)))
+				return
+			}
 		}
 	}
 }
@@ -434,6 +524,9 @@ func batch(r *vh.Run, i int) {
 	}
 	if !e.bad {
 		e.manifests(rng)
+	}
+	if !e.bad {
+		e.negotiation(rng)
 	}
 	if !e.bad {
 		e.probeAll()
